@@ -101,6 +101,16 @@ Clauses(e, n) ==
                /\ \A a \in DOMAIN lhold[p] : lhold'[p][a].qty = lhold[p][a].qty /\ lhold'[p][a].mv = lhold[p][a].mv >>,
         << << "C15", "state(pending-orders)" >>, queue' = queue >>,
         << << "C15", "state(history)" >>, lhist' = lhist >>,
+        \* the same facts as the owning properties state them: a refused request is not a cash movement (C01:
+        \* "nothing else ever changes a cash balance"), is not a fill (C02: holdings are the net of the fills) and
+        \* is neither a fill nor a re-mark (C03: the P&L figures reconcile to the fills made and the current price)
+        << << "C01", "untouched-by-refusal" >>, cash' = cash /\ master' = master >>,
+        << << "C02", "untouched-by-refusal" >>, \A p \in ps \cap DOMAIN lhold :
+               /\ DOMAIN lhold'[p] = DOMAIN lhold[p]
+               /\ \A a \in DOMAIN lhold[p] : lhold'[p][a].qty = lhold[p][a].qty /\ lhold'[p][a].mv = lhold[p][a].mv >>,
+        << << "C03", "untouched-by-refusal" >>, \A p \in ps \cap DOMAIN lhold : \A a \in DOMAIN lhold[p] \cap DOMAIN lhold'[p] :
+               /\ lhold'[p][a].qty = lhold[p][a].qty /\ lhold'[p][a].rpnl = lhold[p][a].rpnl
+               /\ lhold'[p][a].upnl = lhold[p][a].upnl /\ lhold'[p][a].tpnl = lhold[p][a].tpnl >>,
         << << "C15", "state(no-fill)" >>, e.fills = << >> /\ e.marks = << >> >> }
       \* an accepted request: the logged post-state is the Effect applied to the previous logged state
       Accepted == {
